@@ -58,6 +58,13 @@ def is_deepcopy(v):
 
 def run(repo, rep, tier):
     from .c12 import namespace_validated_first
+    typed_property_transfer(repo, rep)
+    from ..argorder import argument_order_rule
+    argument_order_rule(repo, rep, 'C10.R14', tuple(
+        m.relpath for m in repo.modules.values()
+        if m.relpath.startswith('pywbem_mock/') and m.relpath not in (
+            'pywbem_mock/_mainprovider.py',
+            'pywbem_mock/_wbemconnection_mock.py')), 60)
     namespace_validated_first(repo, rep, 'C10.R12', lambda n: n in ('EnumerateInstances', 'EnumerateInstanceNames'))
     r1 = rep.rule('C10.R1', 'stores copy on the way in')
     r2 = rep.rule('C10.R2', 'stores copy on the way out')
@@ -587,7 +594,8 @@ def run(repo, rep, tier):
             raise AnalysisError('%s.%s vanished' % (cn, mn))
         r5.sites += 1
         r5.functions.add(f.fq)
-        cfg = CFG(f.node)
+        from ..inline import Flat
+        cfg = CFG(Flat(f, keep=('_resolve_class',)).node)
         copies = [s for s in cfg.stmts() if isinstance(s, ast.Assign) and
                   is_deepcopy(s.value) and norm(s.value.args[0]) == param]
         ok = len(copies) == 1
@@ -863,3 +871,100 @@ def status_follows_existence(repo, rep, rid, select):
     if r.sites < 3:
         raise AnalysisError('%s: only %d existence-guarded refusals'
                             % (rid, r.sites))
+
+
+def _property_object_names(func):
+    """locals evidently bound to CIMProperty objects: loop variables over
+    `<x>.properties.values()` and names assigned `<x>.properties[...]` /
+    `<x>.properties.get(...)`"""
+    out = set()
+
+    def is_props(e):
+        return isinstance(e, ast.Attribute) and e.attr == 'properties'
+    for n in walk_no_nested(func.node):
+        if isinstance(n, (ast.For, ast.comprehension)) and \
+                isinstance(n.target, ast.Name) and \
+                isinstance(n.iter, ast.Call) and \
+                isinstance(n.iter.func, ast.Attribute) and \
+                n.iter.func.attr in ('values', 'itervalues') and \
+                is_props(n.iter.func.value):
+            out.add(n.target.id)
+        elif isinstance(n, ast.Assign) and len(n.targets) == 1 and \
+                isinstance(n.targets[0], ast.Name):
+            v = n.value
+            if isinstance(v, ast.Subscript) and is_props(v.value):
+                out.add(n.targets[0].id)
+            elif isinstance(v, ast.Call) and \
+                    isinstance(v.func, ast.Attribute) and \
+                    v.func.attr == 'get' and is_props(v.func.value):
+                out.add(n.targets[0].id)
+    return out
+
+
+def untyped_transfers(func):
+    """assignments `inst[k] = <property object>.value`: the value of a
+    declared property is stored without its declaration"""
+    pnames = _property_object_names(func)
+    out = []
+    for n in walk_no_nested(func.node):
+        if not (isinstance(n, ast.Assign) and len(n.targets) == 1 and
+                isinstance(n.targets[0], ast.Subscript)):
+            continue
+        v = n.value
+        if not (isinstance(v, ast.Attribute) and v.attr == 'value'):
+            continue
+        b = v.value
+        if (isinstance(b, ast.Name) and b.id in pnames) or \
+                (isinstance(b, ast.Subscript) and
+                 isinstance(b.value, ast.Attribute) and
+                 b.value.attr == 'properties'):
+            out.append(n)
+    return out
+
+
+def typed_property_transfer(repo, rep):
+    """C10.R15: a property moves between class / instance objects as a
+    CIMProperty, not as its bare value.  `inst[name] = prop.value` builds a
+    new CIMProperty whose CIM type is inferred from the Python value: for
+    NULL and for an empty array that raises ValueError (the operation fails
+    with a non-CIM error although the reference map succeeds), and a char16
+    value is silently stored as string.  The declared type is only kept
+    when the property object itself (or an explicitly typed CIMProperty) is
+    stored."""
+    r15 = rep.rule('C10.R15', 'property values are transferred together with '
+                   'their declared type')
+    n_funcs = 0
+    for m in repo.modules.values():
+        if not m.relpath.startswith('pywbem_mock/'):
+            continue
+        for f in m.all_funcs():
+            stores = [n for n in walk_no_nested(f.node)
+                      if isinstance(n, ast.Assign) and len(n.targets) == 1
+                      and isinstance(n.targets[0], ast.Subscript)]
+            if not stores:
+                continue
+            n_funcs += 1
+            r15.sites += len(stores)
+            r15.functions.add(f.fq)
+            bad = untyped_transfers(f)
+            r15.ob(not bad, f.qualname, {'item_stores': len(stores)})
+            for st in bad:
+                rep.finding(r15, f.qualname, norm(st, 80), 'type-dropped',
+                            m.relpath, st.lineno,
+                            'the value of a declared property is stored '
+                            'without its declaration: CIMInstance.__setitem__ '
+                            'infers the CIM type from the Python value - '
+                            'ValueError for NULL and for an empty array, '
+                            'string instead of char16 - so the operation '
+                            'fails (or stores another type) where the '
+                            'reference map succeeds')
+    if n_funcs < 10:
+        raise AnalysisError('C10.R15: only %d functions with item stores'
+                            % n_funcs)
+    probe = ast.parse('def f(a, b):\n    for p in b.properties.values():\n'
+                      '        a[p.name] = p.value\n').body[0]
+
+    class _F:
+        node = probe
+    if len(untyped_transfers(_F)) != 1:
+        raise AnalysisError('C10.R15 recogniser broken')
